@@ -101,5 +101,38 @@ def rule_P_FULLMATCH(ctx, floor=2):
         ctx.ob("P-FULLMATCH", key, ok, "not guarded by `len >= needle.chars().count() &&`: a slice that ends inside the keyword is accepted as the keyword "
                "(end of input: name cut short / border beyond the environment)", "%s:%s" % (it["span"]["file"], c.get("line")))
     ctx.floor("starts_with_str call sites", len(sites), floor)
+    # the enum parser's own recogniser: ParseState::starts_with(keyword) must answer false when fewer characters remain than the keyword
+    # has (seed c01-e rewrote it with `zip`, which stops at the shorter side and accepts a truncated keyword)
+    es = [it for p_, it in ctx.facts.hir.items() if it["name"] == "starts_with" and "impl_enum::parser" in p_]
+    if len(es) != 1:
+        from facts import AnchorMissing
+        raise AnchorMissing("enum ParseState::starts_with")
+    it = es[0]
+    ctx.fn(it)
+    kw = [p_["name"] for p_ in it["params"] if p_["k"] == "Binding" and p_["name"] != "self"]
+    ok = False
+    body = strip(it["body"])
+    for st_ in body["stmts"]:
+        x = strip(st_.get("expr") or st_.get("init") or {"k": "?"}) if st_["k"] in ("Semi", "Expr") else None
+        if x is None or x["k"] != "If":
+            continue
+        c = _norm(x["cond"])
+        if c["k"] != "Binary" or c["op"] not in ("<", ">", "Lt", "Gt"):
+            continue
+        small, big = (c["l"], c["r"]) if c["op"] in ("<", "Lt") else (c["r"], c["l"])
+        fs, fb = hir.field_path(_norm(small)), _norm(big)
+        if fs != ("self", "len_env") or fb["k"] != "Binary" or fb["op"] not in ("+", "Add"):
+            continue
+        sides = [_norm(fb["l"]), _norm(fb["r"])]
+        has_head = any(hir.field_path(z) == ("self", "head") for z in sides)
+        has_cnt = any(len(kw) == 1 and is_char_count_of(z, {"k": "Path", "path": {"res": "local", "name": kw[0], "hid": None, "text": kw[0]}}) or
+                      (z["k"] == "MethodCall" and z["method"] == "count" and _norm(z["recv"])["k"] == "MethodCall" and _norm(z["recv"])["method"] == "chars"
+                       and hir.field_path(_norm(_norm(z["recv"])["recv"])) == (kw[0],)) for z in sides) if kw else False
+        rets = [n for n in hir.walk(x["then"]) if n.get("k") == "Ret"]
+        ret_false = bool(rets) and all(strip(r_["e"])["k"] == "Lit" and strip(r_["e"])["lit"]["v"] is False for r_ in rets if r_.get("e"))
+        if has_head and has_cnt and ret_false and not x.get("else"):
+            ok = True
+    ctx.ob("P-FULLMATCH", "enum ParseState::starts_with answers false when fewer characters remain than the keyword has", ok,
+           "expected an early `if self.len_env < self.head + keyword.chars().count() { return false }` before the comparison")
     ctx.sample({"rule": "P-FULLMATCH", "sites": [{"function": p, "line": c.get("line"), "length_guarded": ok} for p, it, c, ok in sites]})
     return sites
